@@ -56,6 +56,7 @@ func genHistory(r *vlib.Rand, conflict bool) hist {
 	}
 	dir := map[string]progs.DirEnt{}
 	asts := map[string]*progs.Prog{}
+	gone := map[string]*progs.Prog{} // what a removed or renamed-away file held
 	put := func(name string, p *progs.Prog) {
 		asts[name] = p
 		dir[name] = progs.DirEnt{Name: name, Src: w.Src(p)}
@@ -82,7 +83,15 @@ func genHistory(r *vlib.Rand, conflict bool) hist {
 		sort.Slice(l, func(i, j int) bool { return l[i].Name < l[j].Name })
 		return l
 	}
-	scan := func() { h.ops = append(h.ops, progs.Op{K: "scan", Dir: listing()}) }
+	scan := func() {
+		h.ops = append(h.ops, progs.Op{K: "scan", Dir: listing()})
+		for n, e := range dir {
+			if e.KeepStamp {
+				e.KeepStamp = false
+				dir[n] = e
+			}
+		}
+	}
 	line := func() { h.ops = append(h.ops, progs.Op{K: "line", Line: progs.RandLine(r)}) }
 	scan()
 	line()
@@ -98,23 +107,37 @@ func genHistory(r *vlib.Rand, conflict bool) hist {
 			cur, present := dir[name]
 			switch x := r.Intn(100); {
 			case !present || cur.Dir:
-				if x < 12 {
+				switch {
+				case x < 12:
 					dir[name] = progs.DirEnt{Name: name, Dir: true} // a directory with a program-like name
-				} else {
+				case x < 55 && gone[name] != nil:
+					put(name, gone[name]) // comes back byte for byte as it was
+				default:
 					put(name, align(progs.Gen(r, o)))
 				}
 			case x < 15:
+				gone[name] = asts[name]
 				delete(dir, name)
 			case x < 22: // rename: content moves to another name
 				to := vlib.Pick(r, all)
 				if to != name {
+					gone[name] = asts[name]
 					delete(dir, name)
 					put(to, asts[name])
 				}
-			case x < 27:
+			case x < 34: // another text of the same length, time stamp preserved or not
+				p2 := progs.Edit(r, asts[name], "same-length", o)
+				put(name, p2)
+				if r.Chance(70) {
+					e := dir[name]
+					e.KeepStamp = true
+					dir[name] = e
+				}
+			case x < 38:
+				gone[name] = asts[name]
 				dir[name] = progs.DirEnt{Name: name, Dir: true}
-			case x < 37: // touch: same content
-			case x < 62:
+			case x < 45: // touch: same content
+			case x < 65:
 				put(name, progs.Edit(r, asts[name], "syntax-error", o))
 			case x < 80:
 				k := vlib.Pick(r, []string{"trail-comment", "rules", "lead-comment", "keys"})
